@@ -242,6 +242,12 @@ func runSqCase(c *sqCase, t *treeSpec) (sig, msg, outcome string) {
 	if c.NoFrag {
 		tag += "|nofrag"
 	}
+	switch c.Cache {
+	case 0:
+		tag += "|cache-off"
+	case 1:
+		tag += "|cache-one-block"
+	}
 	var content int64
 	for _, b := range t.Files {
 		content += int64(len(b))
